@@ -17,6 +17,44 @@ CLAIMED = {
              "operation. All effective sequences over 4 keys up to length 6 are enumerated (quick), random sequences up to 250 ops over "
              "five key ranges incl. INT extremes are sampled, and libFuzzer drives the same oracle under ASan/UBSan.",
         design_ref="5/C36"),
+    "C30": dict(
+        engine="dsched+rc",
+        technique="schedule-owning concurrency testing (dsched) with rapidcheck-generated programs and schedules, exhaustive schedule DFS for tiny programs, Wing&Gong linearizability oracle, stress conservation oracle",
+        text="Real LIFO code runs on real threads with one runnable at a time; the interleaving at atomic-operation granularity is a generated, "
+             "shrinkable value. Every program of 2 threads x 2 operations is run under every schedule (exhaustive); larger programs with item "
+             "recycling (what ABA needs) are sampled. Oracle: the recorded history including a final drain is linearizable as a stack and "
+             "every item ends in exactly one place; a 2..16-thread free-running stress part covers real parallelism.",
+        design_ref="5/C30"),
+    "C01": dict(
+        engine="ptg(E5)+hypothesis",
+        technique="grammar/template-based generation of valid PTG programs (Hypothesis) with an independent reference interpreter; exactly-once multiset oracle; watchdog-decided hangs",
+        text="Abstract PTG programs are built by construction from edge templates over 1-D/2-D parameter spaces (positive/negative/inline-C "
+             "steps, dependent ranges, local-index parameters, guards, CTL gathers, RW/READ/WRITE flows), emitted as JDF, compiled with the tree's "
+             "parsec-ptgpp for both dependency back-ends and run under all 11 schedulers, 1..16 threads and startup-chunking parameters. Oracle: the "
+             "multiset of (class, parameters) logged by the bodies equals the reference interpreter's enumeration; a missing instance with an idle "
+             "runtime is a violation, a plain timeout is not.",
+        design_ref="5/C01"),
+    "C02": dict(
+        engine="ptg(E5)+hypothesis",
+        technique="generated PTG programs vs reference interpreter: predecessor-order stamps, per-flow input values, final collection contents",
+        text="Same generator as C01 biased to data edges (ternary routing, fan-out, RW chains). Every body logs global sequence stamps and the value "
+             "of each input tile; oracle: each instance starts after all predecessors named by the reference completed, every input flow holds the "
+             "value the reference computes (producer's H(...) or collection element), and the output collection E equals the reference's sequential result.",
+        design_ref="5/C02"),
+    "C16": dict(
+        engine="ptg(E5)+hypothesis",
+        technique="generated PTG programs whose bodies return HOOK_RETURN_AGAIN a generated number of times; invocation-count and ordering oracle; startup chunk sweeps",
+        text="Bodies ask to be re-run r(class, index) in 0..3 times before completing; oracle: exactly r deferred invocations then one completing one, "
+             "successors start after the completing invocation, each instance completes once; task_startup_iter/chunk are swept so startup "
+             "enumeration is suspended and resumed at every position.",
+        design_ref="5/C16"),
+    "C23": dict(
+        engine="ptg(E5)+hypothesis",
+        technique="generated parameter spaces; key distinctness and key_print round-trip oracle on the generated make_key/key_print",
+        text="Each body logs make_key() and key_print() of its own task for generated spaces with negative bounds, steps, dependent ranges, "
+             "local-index parameters, both back-ends; oracle: distinct instances of a class have distinct keys and the printed key names the class "
+             "and exactly the parameter values.",
+        design_ref="5/C23"),
 }
 
 NOT_APPLICABLE = {
